@@ -118,6 +118,8 @@ package pogreb
 //@   ensures [C15] removed: err == nil ==> db.datalog.segments[sourceSeg.id] == nil && dirFid[db.opts.FileSystem][sourceSeg.name] == 0 && dirFid[db.opts.FileSystem][sourceSeg.name + ".pmt"] == 0 && !hOpen[sourceSeg.file.File]
 //@   ensures [C05] others-kept: forall i int :: 0 <= i && i < 32767 && i != int(sourceSeg.id) && old(db.datalog.segments[i]) != nil ==> db.datalog.segments[i] == old(db.datalog.segments[i])
 //@   ensures unlocked: lockSt[fieldaddr(db, mu)] == 0
+// the source segment is removed only after its iterator has reached the end of the file: every record was looked at
+//@   at call removeSegment@1: assert [C05] whole-segment-read: int64(it.offset) >= sourceSeg.file.size
 //@   modifies *
 //@   loop 1:
 //@     invariant db == old(db) && sourceSeg == old(sourceSeg)
